@@ -97,6 +97,7 @@ pub fn run(op: &str, var: &[&str], ints: &[i64], sc: &[V]) -> Out {
         "opinion_new" => op_opinion_new(f, t3, ints, sc),
         "proj" | "maxu" | "umax" => op_unary(op, f, st, t3, ints, sc),
         "discount" => op_discount(f, st, t3, ints, sc),
+        "discount_chain" => op_discount_chain(f, st, t3, ints, sc),
         "fuse" => op_fuse(f, st, t3, ints, sc),
         "fuse_os" => op_fuse_os(f, st, t3, ints, sc),
         "fuse_ss" => op_fuse_ss(f, t3, ints, sc),
@@ -252,6 +253,47 @@ fn op_discount(f: char, st: &str, t3: &str, ints: &[i64], sc: &[V]) -> Out {
                     let wr: OpinionRef<T, V> = w.as_ref();
                     let r: Opinion<T, V> = Discount::discount(&wr, t);
                     ok(&r)
+                }
+                _ => Out::Unsup,
+            }
+        }};
+    }
+    chain!(@ [fam f; n14 n;] body [])
+}
+
+// discount_chain: ints n,k; scalars O(n) t1..tk; repeated discounting
+fn op_discount_chain(f: char, st: &str, t3: &str, ints: &[i64], sc: &[V]) -> Out {
+    need!(ints.len() == 2);
+    let Some(&[n]) = us(&ints[..1], 1, 4).as_deref() else { return Out::Unsup };
+    let Some(&[k]) = us(&ints[1..], 1, 4).as_deref() else { return Out::Unsup };
+    need!(sc.len() == 2 * n + 1 + k);
+    macro_rules! body {
+        (A $n:tt) => { Out::Unsup };
+        ($F:ident $n:tt) => {{
+            type T = c1!($F, X, $n, V);
+            let mut w: Opinion<T, V> = mk_o(&sc[..2 * $n + 1]);
+            let ts = &sc[2 * $n + 1..];
+            match (t3, st) {
+                ("s", _) => {
+                    let mut s: Simplex<T, V> = w.simplex;
+                    for &t in ts {
+                        s = Discount::discount(&s, t);
+                    }
+                    ok(&s)
+                }
+                ("", "o") => {
+                    for &t in ts {
+                        w = Discount::discount(&w, t);
+                    }
+                    ok(&w)
+                }
+                ("", "r") => {
+                    for &t in ts {
+                        let wr: OpinionRef<T, V> = w.as_ref();
+                        let next: Opinion<T, V> = Discount::discount(&wr, t);
+                        w = next;
+                    }
+                    ok(&w)
                 }
                 _ => Out::Unsup,
             }
